@@ -68,8 +68,140 @@ impl Engine for PartEngine {
                     }
                 }
             }
+            ("snd", 3) => sender_blocks(n[0], n[1], n[2], o),
+            ("rq", 3) => raptor_reconstruct(true, n[0], n[1], n[2], o),
+            ("rp", 3) => raptor_reconstruct(false, n[0], n[1], n[2], o),
             _ => "bad-op".to_string(),
         }
+    }
+}
+
+fn mk_sender(oti: &flute::core::Oti, l: u64) -> Result<flute::sender::Sender, String> {
+    use flute::sender::*;
+    let cfg = Config { toi_initial_value: Some(1), ..Default::default() };
+    let ep = flute::core::UDPEndpoint::new(None, "224.0.0.1".to_string(), 3400);
+    let mut sender = Sender::new(ep, 1, oti, &cfg);
+    let content: Vec<u8> = (0..l).map(|i| (i * 7 + 3) as u8).collect();
+    let obj = ObjectDesc::create_from_buffer(
+        content,
+        "application/octet-stream",
+        &url::Url::parse("file:///x").unwrap(),
+        false,
+        Default::default(),
+    )
+    .map_err(|e| format!("{:?}", e))?;
+    sender.add_object(0, obj).map_err(|e| format!("{:?}", e))?;
+    sender.publish(std::time::UNIX_EPOCH + std::time::Duration::from_secs(1_700_000_000)).map_err(|e| format!("{:?}", e))?;
+    Ok(sender)
+}
+
+/// C07 (5a): the (SBN, number of source packets, bytes) structure of the packets a REAL sender emits for an
+/// object of `l` bytes under No-Code (b, e); observation `ok k0:len0 k1:len1 ...` in SBN order.
+fn sender_blocks(b: u64, l: u64, e: u64, o: &mut Oracle) -> String {
+    let r = guarded(move || -> Result<Vec<(u64, u64)>, String> {
+        let oti = flute::core::Oti::new_no_code(e as u16, b as u16);
+        let mut sender = mk_sender(&oti, l)?;
+        let now = std::time::UNIX_EPOCH + std::time::Duration::from_secs(1_700_000_000);
+        let mut blocks: Vec<(u64, u64)> = Vec::new();
+        let mut guard = 0;
+        while let Some(data) = sender.read(now) {
+            guard += 1;
+            if guard > 1_000_000 {
+                return Err("too many packets".into());
+            }
+            let pkt = flute::core::alc::parse_alc_pkt(&data).map_err(|e| format!("{:?}", e))?;
+            if pkt.lct.toi == 0 {
+                continue;
+            }
+            let pid = flute::core::alc::parse_payload_id(&pkt, &oti).map_err(|e| format!("{:?}", e))?;
+            let len = (data.len() - pkt.data_payload_offset) as u64;
+            if l == 0 {
+                continue; // the lone empty-object packet carries no symbol
+            }
+            let sbn = pid.sbn as usize;
+            while blocks.len() <= sbn {
+                blocks.push((0, 0));
+            }
+            blocks[sbn].0 += 1;
+            blocks[sbn].1 += len;
+        }
+        Ok(blocks)
+    });
+    match r {
+        Ok(Ok(bl)) => {
+            // oracle: RFC 5052 structure
+            let (al, asm, i, n) = rfc(b as u128, l as u128, e as u128);
+            let mut ok = bl.len() as u128 == n;
+            let mut first: u128 = 0;
+            for (s, (k, len)) in bl.iter().enumerate() {
+                let kk = if (s as u128) < i { al } else { asm };
+                let want = ((first + kk) * e as u128).min(l as u128) - (first * e as u128).min(l as u128);
+                if *k as u128 != kk || *len as u128 != want {
+                    ok = false;
+                }
+                first += kk;
+            }
+            if !ok {
+                o.fail("snd-ne-rfc", &format!("sender blocks {:?} differ from the RFC 5052 partition {:?}", bl, (al, asm, i, n)));
+            }
+            let mut s = "ok".to_string();
+            for (k, len) in bl {
+                s.push_str(&format!(" {}:{}", k, len));
+            }
+            s
+        }
+        Ok(Err(e)) => format!("ERR {}", e.chars().take(40).collect::<String>().replace(' ', "_")),
+        Err(loc) => {
+            o.fail("snd-panic", &format!("sender panics at {}", loc));
+            "PANIC".to_string()
+        }
+    }
+}
+
+/// C07 (6): B' reconstructed by the receiver-side FTI parser from the RaptorQ / Raptor in-band FTI that a REAL
+/// sender emits; observation `ok <B'> <Z>`; oracle: partition(B', L, E) == partition(B, L, E).
+fn raptor_reconstruct(rq: bool, b: u64, l: u64, e: u64, o: &mut Oracle) -> String {
+    let r = guarded(move || -> Result<(u64, u64), String> {
+        let oti = if rq {
+            flute::core::Oti::new_raptorq(e as u16, b as u16, 1, 1, 4)
+        } else {
+            flute::core::Oti::new_raptor(e as u16, b as u16, 1, 1, 4)
+        }
+        .map_err(|e| format!("{:?}", e))?;
+        let mut sender = mk_sender(&oti, l)?;
+        let now = std::time::UNIX_EPOCH + std::time::Duration::from_secs(1_700_000_000);
+        for _ in 0..100000 {
+            let data = match sender.read(now) {
+                Some(d) => d,
+                None => break,
+            };
+            let pkt = flute::core::alc::parse_alc_pkt(&data).map_err(|e| format!("{:?}", e))?;
+            if pkt.lct.toi == 0 {
+                continue;
+            }
+            let poti = pkt.oti.as_ref().ok_or("no in-band FTI")?;
+            let dbg = format!("{:?}", poti.scheme_specific);
+            let z: u64 = dbg
+                .split("source_blocks_length: ")
+                .nth(1)
+                .and_then(|x| x.split(|c: char| !c.is_ascii_digit()).next())
+                .and_then(|x| x.parse().ok())
+                .ok_or("no Z")?;
+            return Ok((poti.maximum_source_block_length as u64, z));
+        }
+        Err("no object packet".into())
+    });
+    match r {
+        Ok(Ok((b2, z))) => {
+            let want = rfc(b as u128, l as u128, e as u128);
+            let got = rfc(b2 as u128, l as u128, e as u128);
+            if want != got || z as u128 != want.3 {
+                o.fail("raptor-reconstruct", &format!("B'={} Z={} gives partition {:?}, sender's is {:?}", b2, z, got, want));
+            }
+            format!("ok {} {}", b2, z)
+        }
+        Ok(Err(e)) => format!("ERR {}", e.chars().take(40).collect::<String>().replace(' ', "_")),
+        Err(_) => "SKIP".to_string(), // codec-library panic on this shape: not C07's concern (C08/C04 own it)
     }
 }
 
@@ -164,6 +296,52 @@ pub fn run(ctx: &mut Ctx, eng: &mut dyn Engine) {
         }
     }
     ctx.sample("part bp 3 23 4 -> ok 3 3 0 2 ; part bl 3 3 0 23 4 1 -> ok 11".to_string());
+    // real sender: block structure of emitted packets (No-Code) and RaptorQ/Raptor B reconstruction
+    ctx.case("sender");
+    let ns = if ctx.tier_thorough { 3000 } else { 300 };
+    for i in 0..ns {
+        let e = *rng.pick(&[1u64, 2, 3, 4, 5, 7, 16, 100]);
+        let b = *rng.pick(&[1u64, 2, 3, 4, 5, 7, 8, 16, 64]);
+        let t = match rng.below(4) {
+            0 => rng.range(0, 12),
+            1 => rng.range(1, 3 * b + 2),
+            _ => rng.range(1, 400),
+        };
+        let l = match rng.below(3) {
+            0 => t * e,
+            1 => (t * e).saturating_sub(rng.below(e)),
+            _ => t * e + rng.below(e),
+        };
+        let obs = ctx.step(eng, &format!("part snd {} {} {}", b, l, e));
+        ctx.evaluations += 1;
+        if obs.matches(':').count() >= 2 {
+            ctx.nontrivial(&format!("snd {} {} {}", b, l, e));
+        }
+        ctx.count("sender-blocks");
+        if i < 2 {
+            ctx.sample(format!("part snd {} {} {} -> {}", b, l, e, obs));
+        }
+    }
+    for i in 0..ns {
+        let rq = rng.bool();
+        let e = *rng.pick(&[4u64, 8, 16, 64]);
+        let b = rng.range(4, 64);
+        let l = rng.range(1, 40 * b * e).min(60_000);
+        // keep every block at k >= 4 symbols (raptor-code rejects smaller blocks: owned by C08) and Z <= 255
+        let q = rfc(b as u128, l as u128, e as u128);
+        if q.1 < 4 || q.3 > 255 {
+            continue;
+        }
+        let obs = ctx.step(eng, &format!("part {} {} {} {}", if rq { "rq" } else { "rp" }, b, l, e));
+        ctx.evaluations += 1;
+        if q.3 >= 2 {
+            ctx.nontrivial(&format!("raptor {} {} {} {}", rq, b, l, e));
+        }
+        ctx.count(if obs.starts_with("ok") { "raptor-reconstruct-ok" } else { "raptor-reconstruct-skip/err" });
+        if i < 2 {
+            ctx.sample(format!("part {} {} {} {} -> {}", if rq { "rq" } else { "rp" }, b, l, e, obs));
+        }
+    }
 }
 
 fn main() {
